@@ -447,3 +447,15 @@ Proof.
   set (S := fold_right Rplus 0 (map (fun B => rho B (d B)) (seq 0 M))) in *.
   rewrite <- (map_map (fun B => rho B (d B)) (fun x => x / S)), sum_div. fold S. field. exact H.
 Qed.
+
+(* ------------------------------------------------------------------ statements in the form used by C06_props.v *)
+Lemma alpha_bound_lemma ra rb : -1 / 2 <= calculate_alpha ROps ra rb (cutoff_default ROps) <= 1 / 2.
+Proof. exact (aR_bound (fun A => match A with O => ra | _ => rb end) 0 1). Qed.
+Lemma alpha_antisym_lemma ra rb :
+  calculate_alpha ROps rb ra (cutoff_default ROps) = - calculate_alpha ROps ra rb (cutoff_default ROps).
+Proof. exact (calculate_alpha_antisym ra rb _ (proj1 cutoff_default_range)). Qed.
+Lemma nu_range_lemma mu a : -1 / 2 <= a <= 1 / 2 -> -1 <= mu <= 1 -> -1 <= nu_gw ROps mu a <= 1.
+Proof. intros Ha Hm. rewrite nu_gw_R. exact (nuR_range mu a Ha Hm). Qed.
+Lemma weight_range_lemma' k M rad Rm d A : (0 < M)%nat -> wf_point M Rm d -> (A < M)%nat ->
+  0 <= becke_weight ROps k M rad Rm d A <= 1.
+Proof. intros. apply weight_range_lemma; assumption. Qed.
